@@ -9,9 +9,33 @@ arm()/disarm() bracket exactly one library call.  Recorded while armed:
 """
 import builtins, os, sys
 
-_STATE = {'armed': False, 'events': []}
+_STATE = {'armed': False, 'events': [], 'guard': False}
 AUDIT_PREFIXES = ('import', 'exec', 'compile', 'open', 'os.', 'subprocess.', 'socket.', 'ctypes.', 'pickle.find_class', 'marshal.', 'shutil.', 'builtins.input', 'code.__new__', 'function.__new__')
 _installed = False
+
+
+# what a document must not be able to do to the machine that runs the check, even on a tree where the loader really
+# calls what the document names: refused (the call raises Blocked) while a guard is on - recorded as well when armed
+BLOCK_PREFIXES = ('os.fork', 'os.forkpty', 'os.exec', 'os.posix_spawn', 'os.spawn', 'os.system', 'os.startfile', 'subprocess.', 'pty.spawn',
+                  'os.kill', 'os.killpg', 'signal.pthread_kill', 'os.remove', 'os.unlink', 'os.rmdir', 'os.rename', 'os.truncate', 'os.chmod',
+                  'os.chown', 'os.mkdir', 'os.link', 'os.symlink', 'os.putenv', 'os.unsetenv', 'os.chdir', 'os.chroot', 'os.setxattr',
+                  'os.removexattr', 'os.utime', 'os.lockf', 'os.chflags', 'shutil.', 'socket.', 'ctypes.', 'webbrowser.', 'urllib.', 'ftplib.',
+                  'smtplib.', 'http.client.', 'tempfile.', 'resource.setrlimit', 'syslog.', 'fcntl.', 'mmap.', 'winreg.', 'msvcrt.', 'builtins.input',
+                  'builtins.breakpoint')
+
+
+class Blocked(RuntimeError):
+    pass
+
+
+def _writes(args):
+    try:
+        mode, flags = (args + (None, None, None))[1:3]
+        if isinstance(mode, str):
+            return any(c in mode for c in 'wax+')
+        return isinstance(flags, int) and bool(flags & (os.O_WRONLY | os.O_RDWR | os.O_CREAT | os.O_TRUNC | os.O_APPEND))
+    except Exception:
+        return True
 
 
 def _audit(event, args):
@@ -21,6 +45,20 @@ def _audit(event, args):
         except Exception:
             a = '?'
         _STATE['events'].append(('audit', event, a))
+    if _STATE['guard'] and (event.startswith(BLOCK_PREFIXES) or (event == 'open' and _writes(args))):
+        raise Blocked('%s refused while a document is being loaded' % event)
+
+
+class guard:
+    """with guard(): ... - process, file-system and network actions raise Blocked inside"""
+
+    def __enter__(self):
+        install()
+        self.prev = _STATE['guard']
+        _STATE['guard'] = True
+
+    def __exit__(self, *a):
+        _STATE['guard'] = self.prev
 
 
 def install():
@@ -111,3 +149,12 @@ def selftest():
     importlib.import_module('this') if False else None
     ev = m.disarm()
     assert ev == [], ev
+    with guard():
+        for act in (os.fork, lambda: os.system('true'), lambda: open('/var/tmp/vf-guard-probe', 'w'), lambda: os.remove('/var/tmp/vf-guard-probe')):
+            try:
+                act()
+            except Blocked:
+                continue
+            raise AssertionError('not blocked: %r' % (act,))
+        open(__file__).close()
+    assert not _STATE['guard']
